@@ -62,6 +62,7 @@ def step : List String → String
   | ["newval"] => "skip"
   | ["jailval", _] => "skip"
   | ["tick"] => "skip"
+  | ["sdeny"] => "skip"
   | ["unjailval", _] => "skip"
   | _ => "bad-op"
 
